@@ -15,6 +15,7 @@ import os
 
 import gen_pipeline
 import go2lean_c01
+import go2lean_c01entry
 import vlib
 
 PID = "C01"
@@ -149,11 +150,22 @@ def shrink(exe, case, fails):
                 c = copy.deepcopy(cur)
                 c[fld] = val
                 changed |= attempt(c)
-        for fld in ("hdr", "q"):
+        for fld in ("hdr", "q", "origin"):
             if (cur.get("req") or {}).get(fld) is not None:
                 c = copy.deepcopy(cur)
                 c["req"][fld] = None
                 changed |= attempt(c)
+        if (cur.get("req") or {}).get("preflight"):
+            c = copy.deepcopy(cur)
+            c["req"]["preflight"] = False
+            changed |= attempt(c)
+        cors = (cur.get("cfg") or {}).get("cors")
+        if cors:
+            for fld, val in (("origins", []), ("methods", None), ("creds", False)):
+                if cors.get(fld) != val:
+                    c = copy.deepcopy(cur)
+                    c["cfg"]["cors"][fld] = val
+                    changed |= attempt(c)
     return cur
 
 
@@ -176,6 +188,8 @@ def run(R):
     lean_ok = vlib.step_lean(R, PID)
     # the composites / conditional handlers translated from the current source, proved equal to the model
     go2lean_c01.step(R)
+    # the entry-point kernels (rule executor, HTTP handler, Envoy handler) translated from the current source
+    go2lean_c01entry.step(R)
     exe = vlib.step_harness(R)
     if exe is None:
         R.violation("harness does not build against /repo (API used by the correspondence check changed)",
@@ -221,6 +235,10 @@ def run(R):
     req_dist = {}
     req_conds = {"true": 0, "false": 0}
     realms = {}
+    cors_dist = {}       # CORS configuration x Origin header class x kind of request
+    front = {"proxy_answers_with_headers_set_in_front": 0, "of_those_refusals": 0, "of_those_after_a_panic": 0,
+             "of_those_forwarded": 0, "preflight_answered_by_cors_middleware": 0,
+             "preflight_through_the_pipeline": 0, "decision_answers_with_headers_set_in_front": 0}
     for c, i, m in zip(cases, impl, model):
         if gen_pipeline.nontrivial(c):
             nontriv.add(vlib.case_hash(c))
@@ -247,6 +265,27 @@ def run(R):
                 if st.get("decision") in ("error-handled", "error-returned", "no-rule", "panic"):
                     verbosity["verbose_negotiation_fails_and_error_answer"] += 1
         rq = c.get("req") or {}
+        cors = c.get("cfg", {}).get("cors")
+        ck = ("none" if cors is None else "origins=" + ",".join(cors.get("origins") or []) + ";methods="
+              + ("default" if cors.get("methods") is None else ",".join(cors["methods"]))
+              + (";creds" if cors.get("creds") else ""))
+        ck += " | origin=" + json.dumps(rq.get("origin")) + (" | preflight" if rq.get("preflight") else "")
+        cors_dist[ck] = cors_dist.get(ck, 0) + 1
+        if isinstance(i, dict):
+            if isinstance(i.get("proxy"), dict) and i["proxy"].get("pre"):
+                front["proxy_answers_with_headers_set_in_front"] += 1
+                pb = st.get("proxy")
+                if pb in ("error-handled", "error-returned", "no-rule", "panic"):
+                    front["of_those_refusals"] += 1
+                if pb == "panic":
+                    front["of_those_after_a_panic"] += 1
+                if i["proxy"].get("hits"):
+                    front["of_those_forwarded"] += 1
+            if isinstance(i.get("decision"), dict) and i["decision"].get("pre"):
+                front["decision_answers_with_headers_set_in_front"] += 1
+        if rq.get("preflight"):
+            front["preflight_answered_by_cors_middleware" if st.get("proxy") == "preflight-answered"
+                  else "preflight_through_the_pipeline"] += 1
         rk = "hdr=" + gen_pipeline.render_class(rq.get("hdr") is not None, rq.get("hdr")).replace("fails", "absent") \
             + ",q=" + gen_pipeline.render_class(rq.get("q") is not None, rq.get("q")).replace("fails", "absent")
         req_dist[rk] = req_dist.get(rk, 0) + 1
@@ -273,8 +312,11 @@ def run(R):
         steps_hist[str(k)] = steps_hist.get(str(k), 0) + 1
     R.coverage.update({
         "evaluations": len(cases), "distinct_nontrivial": len(nontriv),
-        "rule": "a case = status overrides, respond.verbose and log.level (trace/debug/info/warn/disabled; logger "
-                "of the request context) of the services, the request's Accept header (absent, "
+        "rule": "a case = status overrides, respond.verbose, log.level (trace/debug/info/warn/disabled; logger "
+                "of the request context) and the `cors` block (absent / five configurations: one or several exact "
+                "origins, every origin, GET allowed or not, credentials) of the services, the request's Origin header "
+                "(absent, allowed, not allowed, empty, other case), GET or CORS preflight request (OPTIONS + "
+                "Access-Control-Request-Method), the request's Accept header (absent, "
                 "acceptable, unsupported, malformed), the request's X-C01-To header and `to` query parameter (absent, "
                 "URL, empty, blank, multi-line, not a URL), a rule and/or default rule (0-3 authenticators, 0-4 "
                 "authorizers/contextualizers, 0-3 finalizers, 0-3 error handlers: default / www_authenticate with "
@@ -298,6 +340,8 @@ def run(R):
         "redirect_to_template_x_nominal_rendering": dict(sorted(to_nominal.items())),
         "location_header_observed_in_answers": {ep: dict(sorted(v.items())) for ep, v in observed_loc.items()},
         "request_dependent_conditions": req_conds,
+        "cors_configuration_x_origin_header": dict(sorted(cors_dist.items())),
+        "response_headers_set_in_front_of_the_handler": front,
         "www_authenticate_realms": dict(sorted(realms.items())),
         "cases_rejected_at_load": rejected,
         "pipeline_length_histogram": dict(sorted(steps_hist.items(), key=lambda kv: int(kv[0]))),
@@ -320,6 +364,13 @@ def run(R):
         "generator computes it for its 11 templates and 4 request questions from the request it sends, and the "
         "comparison of the answers validates that; the value of the Location header is not compared (not C01's "
         "subject), its class is only counted in the evidence",
+        "of rs/cors only the names of three response headers are modelled (Vary always; Access-Control-Allow-Origin "
+        "/ -Credentials for a non-empty exactly listed origin when GET is allowed) and that a preflight request is "
+        "answered by the middleware with 204 without calling the service handler; wildcard origin patterns, "
+        "Access-Control-Request-Headers, private-network requests, OPTIONS requests without "
+        "Access-Control-Request-Method are not generated; a preflight request answered by the proxy's CORS "
+        "middleware (operator configured serve.proxy.cors) is a positive status without a rule - the explicit "
+        "exception of c01_chain_sound (nothing forwarded, no mechanism executed), not judged by the specification",
         "content negotiation of the Accept header is a request attribute of the model (`negotiable`), tabulated for "
         "the 11 generated header values and validated through the observed presence of an error body; body content "
         "and content type are out of scope (C12)",
@@ -352,6 +403,7 @@ def run(R):
                     {"lean_log": R.lean["log"], "failed": R.lean["failed"],
                      "theorems": R.lean.get("failed_theorems")}, no_input=True)
     go2lean_c01.report(R, exe, corpus, one, spec_violations, differs, describe, shrink)
+    go2lean_c01entry.report(R)
     # the replay file carries the first violation: concrete inputs first
     R.violations.sort(key=lambda v: v[2])
 
